@@ -11,7 +11,7 @@ def c_sys_of(sysname):
     from quara.objects.composite_system_typical import generate_composite_system
     key = ("csys", sysname)
     if key not in _cache:
-        _cache[key] = generate_composite_system(sysname, 1)
+        _cache[key] = generate_composite_system("qubit", 2) if sysname == "2qubit" else generate_composite_system(sysname, 1)
     return _cache[key]
 
 
